@@ -22,6 +22,12 @@ open Props.C06X
 theorem applyPrim_wei_frame (s : St) (x : XS) (p : Prim) (h : ∀ k w, p ≠ .award k w) :
     (applyPrim (s, x) p).2.fw = x.fw ∧ (applyPrim (s, x) p).2.yw = x.yw := by
   cases p with
+  | tokIn i w units => simp only [applyPrim]; exact ⟨(addTokOuts_frame _ _).2.2.2.1, (addTokOuts_frame _ _).2.2.1⟩
+  | tokSpend oid outs aout =>
+    cases aout with
+    | none => simp only [applyPrim]; exact ⟨(addTokOuts_frame _ _).2.2.2.1, (addTokOuts_frame _ _).2.2.1⟩
+    | some a => obtain ⟨a, u, c⟩ := a; simp only [applyPrim]; exact ⟨(addTokOuts_frame _ _).2.2.2.1, (addTokOuts_frame _ _).2.2.1⟩
+  | fee i u => exact ⟨rfl, rfl⟩
   | move tok src dst amt =>
     rw [applyPrim_move]
     cases src <;> cases dst <;> cases tok <;> exact ⟨rfl, rfl⟩
@@ -48,11 +54,17 @@ theorem applyPrims_conserves_wei (ps : List Prim) (s : St) (x : XS) (h : AllMove
       | move tok src dst amt => simp only [AllMoves] at h; exact allMoves_step s x _ ps h.2.2
       | kill b => simp only [AllMoves] at h; exact allMoves_step s x _ ps h.2
       | award k w => simp only [AllMoves] at h; exact allMoves_step s x _ ps h.2
+      | tokIn _ _ _ => exact absurd h (by simp [AllMoves])
+      | tokSpend _ _ _ => exact absurd h (by simp [AllMoves])
+      | fee _ _ => exact absurd h (by simp [AllMoves])
     have h2 := ih (applyPrim (s, x) p).1 (applyPrim (s, x) p).2 hstep
     simp only [applyPrims, List.foldl_cons] at h2 ⊢
     rw [h2]
     cases p with
     | burn b => exact absurd h (by simp [AllMoves])
+    | tokIn _ _ _ => exact absurd h (by simp [AllMoves])
+    | tokSpend _ _ _ => exact absurd h (by simp [AllMoves])
+    | fee _ _ => exact absurd h (by simp [AllMoves])
     | award k w => simp only [AllMoves] at h; exact applyPrim_award_wei s x k w h.1
     | move tok src dst amt =>
       simp only [AllMoves] at h
@@ -86,6 +98,9 @@ theorem onlyAwards_allMoves (s : St) (x : XS) (ps : List Prim) (h : OnlyAwards x
     | move _ _ _ _ => exact absurd h (by simp [OnlyAwards])
     | burn _ => exact absurd h (by simp [OnlyAwards])
     | kill _ => exact absurd h (by simp [OnlyAwards])
+    | tokIn _ _ _ => exact absurd h (by simp [OnlyAwards])
+    | tokSpend _ _ _ => exact absurd h (by simp [OnlyAwards])
+    | fee _ _ => exact absurd h (by simp [OnlyAwards])
 
 /-- awards do not touch the ledger state, and the foundation has paid out exactly their sum more -/
 theorem applyPrims_onlyAwards (ps : List Prim) (s : St) (x : XS) (h : OnlyAwards x ps) :
@@ -108,12 +123,18 @@ theorem applyPrims_onlyAwards (ps : List Prim) (s : St) (x : XS) (h : OnlyAwards
           | move _ _ _ _ => exact absurd h.2 (by simp [OnlyAwards])
           | burn _ => exact absurd h.2 (by simp [OnlyAwards])
           | kill _ => exact absurd h.2 (by simp [OnlyAwards])
+          | tokIn _ _ _ => exact absurd h.2 (by simp [OnlyAwards])
+          | tokSpend _ _ _ => exact absurd h.2 (by simp [OnlyAwards])
+          | fee _ _ => exact absurd h.2 (by simp [OnlyAwards])
       have := ih { x with yw := addAt x.yw k w, fw := x.fw + w } hl
       simp only [applyPrims, List.foldl_cons, applyPrim, awardSum] at this ⊢
       exact ⟨this.1, by rw [this.2]; omega⟩
     | move _ _ _ _ => exact absurd h (by simp [OnlyAwards])
     | burn _ => exact absurd h (by simp [OnlyAwards])
     | kill _ => exact absurd h (by simp [OnlyAwards])
+    | tokIn _ _ _ => exact absurd h (by simp [OnlyAwards])
+    | tokSpend _ _ _ => exact absurd h (by simp [OnlyAwards])
+    | fee _ _ => exact absurd h (by simp [OnlyAwards])
 
 /-- **C06 on an award block (partial, as `C06_partial`).**  The transactions of the block execute (every one `Honest` where it
 executes: their fees are credited to the foundation), then the foundation pays the awards: the total over everything observed,
